@@ -140,6 +140,7 @@ S["C12"] = dict(title="Close and Disconnect end the client from any state, promp
   bounds={"quick":"2-3 goroutines, states {never connected, down, online, closed}, quit {nil, closed}","thorough":"same"},
   outside=["preemption inside straight-line code","wall-clock promptness","runtime-level goroutine/descriptor leaks"])
 S["C14"] = dict(title="Errors stay in documented classes; 'not submitted' means no byte was sent", technique=TECH+"; error values are concrete object graphs walked by errors.Is/As models, feasibility of each path decided by the solver", harnesses=[
+    H("verifH_C12_states", "ReadBackoff/Backoff are nil for the ErrClosed reported after Close/Disconnect from each state (down, online, closed; pending transfers)", T({"wfaults":0}), T({"wfaults":1}, time_sec=2400), ("closed",)),
     H("verifH_C14_classifiers", "L14.c IsDeny/IsEnd/Backoff/ReadBackoff vs errors.Is over error trees (wrap, multi-%w, Join of 2 and 3, custom Is, nil Unwrap); classifiers leave their argument unchanged", T({"depth":2,"leaves":7}), T({"depth":2,"leaves":10}, time_sec=2400, maxpaths=3000000)),
     H("verifH_C14_methods", "L14.a/b each request method x {down, online with write fault, closed} x quit x response {answer, broker failure, connection loss, close}: documented classes, not-submitted => no byte", T({"wfaults":1,"storefaults":1}), T({"wfaults":2,"storefaults":1}), ("ok","classified","not-submitted","quit")),
     H("verifH_C08_requests", "not-submitted classes wrote nothing; failed transfer is ErrSubmit", T({"faults":2}), T({"faults":3}), ("complete","failed","not-submitted")),
@@ -150,6 +151,7 @@ S["C14"] = dict(title="Errors stay in documented classes; 'not submitted' means 
   outside=["error texts","pending-connect state for blocking requests (C18 lockwrite harness)"])
 S["C11"] = dict(title="Every request completes and gets its own response", technique=TECH+"; arbitrary response bodies against registered requests; scripted interleaving through a guarded hook point for the ping slot", harnesses=[
     H("verifH_C11_correlation", "L11.b SUBACK/UNSUBACK with arbitrary identifier and codes against 1..2 registered requests at free identifiers: only the addressed one is answered, SubscribeError lists its own failed filters in order", reach=("granted","failed-filters","unsuback","count-mismatch","unsolicited-tolerated")),
+    H("verifH_C11_offlinerace", "the same race with a Ping instead of the Subscribe (toOffline || a publish inside its slow write || Ping being submitted; Write and Close are scheduling points): the Ping returns whatever the interleaving", T({"preempt":0,"ping":1,"sub":0}), T({"preempt":1,"ping":1,"sub":0}, time_sec=1200, maxpaths=2000000)),
     H("verifH_C11_offlinerace", "bounded schedule exploration: the read routine's toOffline || a publish inside its slow write || a Subscribe being submitted (Write and Close are scheduling points): every request returns, no slot left", T({"preempt":0,"ping":0}), T({"preempt":1,"ping":0}, time_sec=2400, maxpaths=3000000), ("end",)),
     H("verifH_C11_pingslot", "L11.d Ping A's submission fails; read routine goes offline; Ping B installs its callback before A cleans up: B must still be answered", reach=()),
     H("verifH_C17_slots", "L11.a startTx/endTx"),
